@@ -16,4 +16,9 @@ UNITS = [
          remove_bodies=[f.name for f in _t.by_file[csrc.REPO + "/src/transmission/bidib_transmission_node_states.c"] if f.name != "bidib_node_state_table_reset"],
          extra_flags=["--nondet-static", "--unwind", "5"], covers=1, min_obligations=6, timeout=300,
          stubbed_contracts=["GHashTable iteration (one node)", "GQueue lazy model"]),
+    Unit(name="C16.reset_train_params", src="units/C16/reset.c", functions=["bidib_state_reset_train_params"], props=["C16"], no_dfcc=True, kind="bounded",
+         bound="2 trains x 3 boards with arbitrary content (distinct DCC / node addresses); loops unwound completely",
+         remove_bodies=[f.name for f in _t.by_file[csrc.REPO + "/src/state/bidib_state.c"] if f.name != "bidib_state_reset_train_params"],
+         extra_flags=["--nondet-static", "--unwind", "5"], covers=3, min_obligations=4, timeout=300,
+         stubbed_contracts=["bidib_send_cs_drive_intern (recording)"]),
 ]
